@@ -3,9 +3,13 @@
          for the current variant only (a regression to an OLD behaviour is a divergence);
    spec: the reference interpreter sm_denote of the implementation's text gives back the mapset (header fields, charts,
          objects per kind and column, times exact or within the written grid);
-   wf:   the mapset is in the theorem's domain. *)
+   wf:   the mapset is in the theorem's domain.
+   Additionally, for every case whose mapset lies in the decidable EXACT domain of the whole-file theorem
+   (Formats/SMWriteDom.c03_domb_gen on the live constants: rational times exactly on the snap grid, tempo beats hundredths,
+   true lcm <= 384, ...) the theorem's conclusion in oracle form (Props/C03.C03_sm_write_spec: write_spec in the exact
+   regime) is evaluated on the implementation's text, whether or not the tempo changes lie on measure lines. *)
 From Coq Require Import String ZArith QArith Qround Qabs List Bool.
-From RV Require Export Corr.RunSM.
+From RV Require Export Corr.RunSM Formats.SMWriteDom Formats.SMReadDom.
 Import ListNotations.
 Open Scope Q_scope.
 
@@ -124,6 +128,13 @@ Definition exact_regime (pls : list (option (list placed))) (s : smset) : bool :
   end.
 
 
+(* the written text lies in the READER's dialect (Formats/SMReadDom.v): everything of c02_domb except the clause on the
+   tempo beats (distinct, on the 1/48 grid), which is a property of the mapset, not of the writer.  This is the
+   hypothesis `c02_domb txt` of the read-back theorem Props/C03.v : C03_sm_write_read_back, evaluated on every text the
+   implementation wrote for a mapset of the exact domain. *)
+Definition readback_dom (t : text) (d : dfile) : bool :=
+  dialect2 t && hdr_ok d && forallb (fun c => forallb (fun n => (n mod 4 =? 0)%Z) (d_rows c)) (d_charts d).
+
 Definition check (c : c03case) : verdict :=
   match c with
   | C03Write dom rated tol s out =>
@@ -134,11 +145,16 @@ Definition check (c : c03case) : verdict :=
                                       | Some toks, Some t => match_toks tol toks t
                                       | None, None => true
                                       | _, _ => false end) current;
-         spec_ok := if wf then match txt with
+         spec_ok := (if wf then match txt with
                                | Some t => match sm_denote t with
                                            | Some d => write_spec tol (exact_regime pls s) s d
                                            | None => false end
-                               | None => false end else true;
+                               | None => false end else true)
+                    && (if c03_domb_gen conf s then match txt with
+                               | Some t => match sm_denote t with
+                                           | Some d => write_spec tol true s d && readback_dom t d
+                                           | None => false end
+                               | None => false end else true);
          wf_ok := negb dom || wf |}
   end.
 
